@@ -266,3 +266,94 @@ def plant(text, lines, at):
     src = text.split("\n")
     at = max(0, min(at, len(src)))
     return "\n".join(src[:at] + lines + src[at:])
+
+
+# ---------------------------------------------------------------------------------------------------------
+# histories of stateful statements (spec/NegHist.tla)
+# ---------------------------------------------------------------------------------------------------------
+STK_NAMES = {1: "ALPHA", 2: "BETA", 3: "", 4: "GAMMA", 5: "OMEGA"}        # 3 = the default stack "DEFSTACK"
+CP_NAMES = {1: "AAA", 2: "MMM", 3: "STANDARD", 4: "ZZZ"}
+HIST_CLOSERS = {"ENDUNION": "\tendunion", "ENDSTRUCT": "\tendstruct", "ENDSECTION": "\tendsection",
+                "RESTORE": "\trestore"}
+HIST_CPUS = ["z80", "8051", "8086"]
+
+
+def render_hist_stmt(fam, st, k):
+    """one statement of a NegHist history -> list of source lines (k: running number for unique labels)"""
+    kind, a, b = st["k"], st["a"], st["b"]
+    if fam == "stk":
+        if kind in ("PUSH", "POP"):
+            return ["\t%sv\t%s,x" % (kind.lower(), STK_NAMES[a])]
+        if kind in ("PUSHS", "POPS"):
+            return ["\t%sv\t%s,s" % (kind[:-1].lower(), STK_NAMES[a])]
+        if kind == "PUSH2":
+            return ["\tpushv\t%s,x,s" % STK_NAMES[a]]
+        if kind == "SETS":
+            return ["s\tset\t\"v%d%s\"" % (k, "y" * (24 * (k % 4 + 1)))]
+        return ["x\tset\tx+1"]
+    if fam == "chr":
+        if kind == "CPNEW":
+            return ["\tcodepage\t%s" % CP_NAMES[a]]
+        if kind == "CPCOPY":
+            return ["\tcodepage\t%s,%s" % (CP_NAMES[a], CP_NAMES[b])]
+        if kind == "CPSTD":
+            return ["\tcodepage\tSTANDARD"]
+        if kind == "CSMAP":
+            return ["\tcharset\t65,67,97"]
+        return ["\tcharset"]
+    if fam == "sect":
+        if kind == "SEC":
+            return ["\tsection\tS%d" % a]
+        if kind == "ENDSEC":
+            return ["\tendsection" + ("\tS%d" % a if a else "")]
+        if kind in ("PUB", "GLOB", "FWD"):
+            return ["\t%s\tP%d" % ({"PUB": "public", "GLOB": "global", "FWD": "forward"}[kind], a)]
+        if kind == "DEF":
+            return ["P%d\tequ\t%d" % (a, 10 + k)]
+        return ["X%d\teval\tP%d+1" % (k, a)]
+    if fam == "save":
+        return {"SAVE": ["\tsave"], "RESTORE": ["\trestore"], "CPUSW": ["\tcpu\t%s" % ("8051" if a == 1 else "68000")],
+                "SEGSW": ["\tsegment\tdata"], "RADIX": ["\tradix\t16"], "PHASE": ["\tphase\t100"]}[kind]
+    if fam == "struct":
+        if kind == "STRUCT":
+            return ["S%d\tstruct" % a]
+        if kind == "UNION":
+            return ["U1\tunion"]
+        if kind == "ENDST":
+            return ["\tendstruct" + ("\tS%d" % a if a else "")]
+        if kind == "ENDUN":
+            return ["\tendunion"]
+        if kind == "FIELD":
+            return ["f%d\tdb\t?" % k]
+        return ["i%d\tS%d" % (k, a)]
+    if fam == "mac":
+        if kind == "DEFM":
+            return ["M%d\tmacro" % a, "\tnop", "\tendm"]
+        if kind == "DEFNEST":
+            return ["M1\tmacro", "M2\tmacro", "\tnop", "\tendm", "\tendm"]
+        return ["\tM%d" % a]
+    if fam == "func":
+        if kind == "DEFF":
+            return ["F%d\tfunction\tx,x+%d" % (a, a)]
+        if kind == "DEFFF":
+            return ["F2\tfunction\tx,F1(x)+1"]
+        return ["X%d\teval\tF%d(1)" % (k, a)]
+    if fam == "enum":
+        if kind == "ENUM":
+            return ["\tenum\tE%dA,E%dB" % (a, a)]
+        if kind == "NEXTENUM":
+            return ["\tnextenum\tN%dA" % a]
+        if kind == "ENUMCONF":
+            return ["\tenumconf\t2" if a else "\tenumconf\t1,code"]
+        return ["X%d\teval\tE1A+E1B" % k]
+    raise KeyError(fam)
+
+
+def hist_source(case, cpu):
+    lines = ["\tcpu\t%s" % cpu, "x\tset\t1", "s\tset\t\"abc\"", "DEFD\tequ\t1"]
+    for k, st in enumerate(case["stmts"], 1):
+        lines += render_hist_stmt(case["fam"], st, k)
+    lines += [HIST_CLOSERS[c] for c in case["closers"]]
+    if case["fam"] == "stk":
+        lines += ["\tdb\tx&255", "\tdb\ts"]          # use both symbols after the history
+    return "\n".join(lines) + "\n"
